@@ -106,6 +106,14 @@ def run(ctx):
         for gname in sorted(k for k, f_ in progL.fns.items() if k.startswith("minijinja::compiler::codegen::CodeGenerator::") and f_.kind != "closure"):
             anL.summary(gname)
         check_parser_resets(ctx, progL, "", anL, prefix="C01.P11")
+    # P5 / P12: the clauses of "never crashes" that other properties decide are part of this check too: unbounded
+    # interpreter recursion overflows the native stack (C11), and an unbalanced frame / capture / auto-escape stack or
+    # an unpaired opener ends in `pop().unwrap()` on an empty stack (C05).  Their rule modules run here as clauses,
+    # recorded as C01.P5:<rule> and C01.P12:<rule>.
+    from . import c11 as _c11, c05 as _c05
+    if not ctx.is_borrowed:
+        _c11.run(ctx.borrowed("C11", "C01.P5:"))
+        _c05.run(ctx.borrowed("C05", "C01.P12:"))
     for cname in ctx.configs():
         prog = ctx.program(cname)
         tag = "" if cname == "MAX" else "[%s]" % cname
